@@ -679,8 +679,12 @@ def strip_private(case):
 
 def canon_impl(impl):
     if "error" in impl:
-        return {"error": impl["error"]}
+        return {"error": "rejected"}  # which exception class / message / raising function is not part of the property
     return {"obs": impl["obs"]}
+
+
+def canon_model(model):
+    return {"error": "rejected"} if "error" in model else model
 
 
 # ------------------------------------------------------------------ check
@@ -917,7 +921,7 @@ def body(ck: common.Check):
                     ck.disagreement(stream, public, {"obs": run["obs"]}, ans["model"])
                     break
             continue
-        mine, model = canon_impl(impl), ans["model"]
+        mine, model = canon_impl(impl), canon_model(ans["model"])
         if stream == "float" and "obs" in mine and "obs" in model:
             # arbitrary doubles: the rational model's `t − prev` / `start + t` are the *unrounded* values; these two
             # fields are compared with the `Float` model instead (bit for bit, above)
